@@ -7,6 +7,77 @@ HDR = ("From Coq Require Import List ZArith Bool.\n"
        "From WH Require Import lib.Wire gen.Extracted model.EvmWatcher model.EvmWatcherCase.\n"
        "Import ListNotations.\nOpen Scope Z_scope.\n")
 
+GHDR = ("From Coq Require Import List ZArith Bool.\n"
+        "From WH Require Import lib.Wire gen.Extracted gen.ExtractedEvmGs model.EvmWatcher model.EvmWatcherCase model.EvmGuardianSet model.EvmGuardianSetCase.\n"
+        "Import ListNotations.\nOpen Scope Z_scope.\n")
+
+
+def gz(n):
+    return str(n) if n >= 0 else "(%d)" % n
+
+
+def gzopt(n):
+    """-1 encodes nil / error in the harness rows"""
+    return "None" if n < 0 else "(Some %d)" % n
+
+
+def gzl(l):
+    return core.glist(str(x) for x in l)
+
+
+def gfstep(st):
+    aset = "None" if (st["asked"] < 0 or st["seterr"]) else "(Some %s)" % gzl(st["keys"])
+    sent = core.glist("(%s, %d)" % (gzl(x["keys"]), x["idx"]) for x in st["sent"])
+    return "(%s, %s, %s, %s, %s, %s, %s)" % (gzopt(st["curb"]), gzopt(st["ai"]), gz(st["asked"]), aset, sent, core.gbool(st["err"]), gzopt(st["cura"]))
+
+
+def gfcase(r):
+    return "(%s, %s)" % (core.gbool(r["chan"]), core.glist(gfstep(st) for st in r["steps"]))
+
+
+def run_gs(ctx):
+    """extension X4: the real fetchAndUpdateGuardianSet, one call per step, against the scripted governance contract"""
+    rc, out, trace = core.harness_pkg(ctx, "ethereum", "^TestVerifC10GS$", timeout=900)
+    rows = [r for r in core.read_jsonl(trace) if r.get("k") == "gs"]
+    if rc != 0 or not rows:
+        ctx.problem("correspondence", "go harness C10 guardian-set steps", out[-1500:])
+        return []
+    good = []
+    seen = {}
+    nsteps = nsent = 0
+    shapes = {}
+    for r in rows:
+        if r.get("panic"):
+            ctx.problem("monitor", "fetchAndUpdateGuardianSet panicked: %s" % r["panic"], "history %s" % r["sid"], concrete=True, replay=r, key="gs:panic")
+            continue
+        if r.get("harness"):
+            ctx.problem("correspondence", "harness: " + r["harness"][0], "guardian-set history %s" % r["sid"], concrete=False, replay=r)
+            continue
+        for m in r.get("mon", []):
+            key, _, text = m.partition("|")
+            if key in seen:
+                seen[key][0] += 1
+            else:
+                seen[key] = [1, r, text]
+        for st in r["steps"]:
+            nsteps += 1
+            nsent += len(st["sent"])
+            sc = st["script"]
+            k = "+".join(x for x in ("upg", "mid", "failidx", "failset", "lagset", "oldidx") if sc.get(x)) or "plain"
+            shapes[k] = shapes.get(k, 0) + 1
+        good.append(r)
+    for key, (n, r, text) in sorted(seen.items())[:8]:
+        ctx.problem("monitor", text, "observed on the real fetchAndUpdateGuardianSet against the scripted contract (%d occurrences in this run)" % n,
+                    concrete=True, replay={"chan": r["chan"], "init": r["init"], "script": [st["script"] for st in r["steps"]], "observed": r["steps"], "monitor": r["mon"]}, key=key)
+    ctx.cov["gs_histories"] = len(rows)
+    ctx.cov["gs_fetches"] = nsteps
+    ctx.cov["gs_sets_sent"] = nsent
+    ctx.cov["gs_step_shapes"] = dict(sorted(shapes.items()))
+    ctx.cov["gs_monitor_classes"] = {k: v[0] for k, v in seen.items()}
+    ctx.evaluations += nsteps
+    return good
+
+
 def gkey(tx, bh, em, seq):
     return "(mkKey %d %d %d %d)" % (tx, bh, em, seq)
 
@@ -113,9 +184,9 @@ def run_poller(ctx):
 
 
 def run(ctx):
-    st = core.run_extract(ctx, ["evm_watcher", "evm_by_tx", "evm_poller"])
+    st = core.run_extract(ctx, ["evm_watcher", "evm_by_tx", "evm_poller", "evm_guardian_set"])
     if os.environ.get("VERIF_C10_SKIP_COQ") != "1":
-        core.coq_prove(ctx, "C10", extra_targets=["model/EvmWatcherCase.vo"])
+        core.coq_prove(ctx, "C10", extra_targets=["model/EvmWatcherCase.vo", "model/EvmGuardianSetCase.vo"])
         if ctx.tier == "thorough":
             core.coq_thorough_audit(ctx, "C10")
     env = {}
@@ -186,12 +257,24 @@ def run(ctx):
     ctx.cov["monitor_messages"] = nmon
     ctx.cov["monitor_classes"] = {k: v[0] for k, v in seen.items()}
     prows = []
+    grows = []
     if not ctx.replay:
         prows = run_poller(ctx)
+        grows = run_gs(ctx)
     if os.environ.get("VERIF_C10_SKIP_COQ") == "1":
         return
     # other checks may have regenerated gen/Extracted.vo while the harness ran: bring the glue up to date (no-op otherwise)
-    core.coq_make(["model/EvmWatcherCase.vo"])
+    core.coq_make(["model/EvmWatcherCase.vo", "model/EvmGuardianSetCase.vo"])
+    if grows:
+        gok = "Definition ok (c : bool * list fcase) : bool := let '(has, l) := c in check_fetches has None l."
+        gbad = core.run_cases(ctx, "cases_C10gs", grows, GHDR, "bool * list fcase", gfcase, gok, nshards=4)
+        if gbad is not None:
+            for i in gbad[:3]:
+                r = grows[i]
+                ctx.problem("correspondence", "model fetch differs from fetchAndUpdateGuardianSet (set sent / error / remembered index / index named in the set call)",
+                            "guardian-set history %s" % r["sid"], concrete=False,
+                            replay={"chan": r["chan"], "init": r["init"], "script": [st["script"] for st in r["steps"]], "observed": r["steps"]})
+            ctx.cov["gs_mismatches"] = len(gbad)
     if prows:
         pok = "Definition ok (c : Z * list (option Z * (Z * list (Z * bool) * bool))) : bool := let '(l, st) := c in check_polls l st."
         pbad = core.run_cases(ctx, "cases_C10p", prows, HDR, "Z * list (option Z * (Z * list (Z * bool) * bool))", gpoll, pok, nshards=4)
